@@ -352,6 +352,9 @@ class ProjGen:
                     pre.append({'path': p, 'dir': True, 'mode': 0o755})
                 elif r < 0.8:
                     pre.append({'path': os.path.dirname(p), 'dir': True, 'mode': rng.choice([0o700, 0o711, 0o775])})
+                else:
+                    # a symbolic link is in the way of a file: dangling, to a file, to a directory, absolute
+                    pre.append({'path': p, 'link': rng.choice(['stale', 'stale', 'keep-target', '.', '@ROOT@/outside/x', '../up'])})
             elif e['kind'] == 'dir':
                 if r < 0.5:
                     pre.append({'path': p, 'dir': True, 'mode': rng.choice([0o700, 0o711, 0o775])})
@@ -552,7 +555,7 @@ def classify(f, spec, hist_res):
     if f.get('via_symlink'):
         return 'C11:symlink-write-through'
     kind = f['kind']
-    if kind in ('uninstall_left', 'uninstall_not_inverse', 'uninstall_touched_other'):
+    if kind in ('uninstall_left', 'uninstall_not_inverse', 'uninstall_touched_other', 'uninstall_left_files'):
         p = f.get('line') or f.get('path') or ''
         loglines = [l[2:] for b in hist_res['impl'] for l in b['log'] if l.startswith('G')]
         if any(l != l.strip() and (p == l or p == l.strip() or under(l, p) or under(p, l.strip())) for l in loglines):
